@@ -15,6 +15,27 @@ M = [
  ('ss-t0', 'single_shooting.py', "FF = F(x0=self.X[k], u=self.U[k], t0=self.control_grid[k],", "FF = F(x0=self.X[k], u=self.U[k], t0=self.control_grid[0],", ['C01']),
  ('euler-step', 'sampling_method.py', 'X + DT * k["ode"], poly_coeff, DT * k["quad"]', 'X + DT_control * k["ode"], poly_coeff, DT * k["quad"]', ['C01']),
  ('diffeq-DTc', 'sampling_method.py', "intg_res = intg(x0=X[-1], u=U, t0=t0_local, DT=DT, DT_control=T, p=P, z0=Z0_current)", "intg_res = intg(x0=X[-1], u=U, t0=t0_local, DT=DT, DT_control=DT, p=P, z0=Z0_current)", ['C01']),
+ # --- C02
+ ('dc-C-index', 'direct_collocation.py', 'Pidot_j = mtimes(self.Xc[k][i],self.C[:,j])/ dt', 'Pidot_j = mtimes(self.Xc[k][i],self.C[:,max(j-1,0)])/ dt', ['C02']),
+ ('dc-root-time', 'direct_collocation.py', 'tr.append([self.integrator_grid[k][i]+dt*self.tau[j] for j in range(self.degree)])', 'tr.append([self.integrator_grid[k][0]+dt*self.tau[j] for j in range(self.degree)])', ['C02']),
+ ('dc-z-col', 'direct_collocation.py', 'res = f(x=self.Xc[k][i][:, j+1], u=self.U[k], z=self.Zc[k][i][:,j], p=p_total, t=self.tr[k][i][j])', 'res = f(x=self.Xc[k][i][:, j+1], u=self.U[k], z=self.Zc[k][i][:,0], p=p_total, t=self.tr[k][i][j])', ['C02']),
+ ('dc-cont-next', 'direct_collocation.py', 'x_next = self.X[k + 1] if i==self.M-1 else self.Xc[k][i+1][:,0]', 'x_next = self.X[k + 1] if i==self.M-1 else self.Xc[k][i][:,0]', ['C02']),
+ ('dc-dt-M', 'direct_collocation.py', "            dt = (self.control_grid[k + 1] - self.control_grid[k])/self.M\n            dts.append(dt)", "            dt = (self.control_grid[k + 1] - self.control_grid[k])\n            dts.append(dt)", ['C02']),
+ # --- C04
+ ('ms-include-last', 'multiple_shooting.py', '            if not args["include_last"]: continue\n', '            if False: continue\n', ['C04']),
+ ('ss-include-first', 'single_shooting.py', '                if k==0 and not args["include_first"]: continue\n                try:', '                if False: continue\n                try:', ['C04']),
+ ('final-node-pcontrol', 'sampling_method.py', "        p_control = self.get_p_control_at(stage, k) if k!=len(self.U) else self.get_p_control_at(stage, k-1)", "        p_control = self.get_p_control_at(stage, k) if k!=len(self.U) else self.get_p_control_at(stage, 0)", ['C04']),
+ ('offset-shift', 'sampling_method.py', "subst_to.append(self._eval_at_control(stage, vvcat(offsets[offset]), k_abs+offset))", "subst_to.append(self._eval_at_control(stage, vvcat(offsets[offset]), max(k_abs+offset-1,0)))", ['C04']),
+ ('dc-intg-constraint-idx', 'direct_collocation.py', "                    opti.subject_to(self.eval_at_integrator(stage, c, k, i), scale=args[\"scale\"], meta=meta)", "                    opti.subject_to(self.eval_at_integrator(stage, c, k, 0), scale=args[\"scale\"], meta=meta)", ['C04']),
+ ('at-tf-filter', 'sampling_method.py', "            if 'r_at_tf' in [a.name() for a in symvar(e)]:\n                opti.subject_to(e, args[\"scale\"], meta=meta)", "            if 'r_at_tf' in [a.name() for a in symvar(e)] and 'r_at_t0' not in [a.name() for a in symvar(e)]:\n                opti.subject_to(e, args[\"scale\"], meta=meta)", ['C04']),
+ ('eval-control-time', 'sampling_method.py', "                                 v_states=self.get_v_states_at(stage, k),\n                                 t=self.control_grid[k],\n                                 DT=DT,", "                                 v_states=self.get_v_states_at(stage, k),\n                                 t=self.control_grid[max(k,0)],\n                                 DT=DT,", ['C04']),
+ # --- C05
+ ('sum-skip-first', 'sampling_method.py', "        r = 0\n        for k in range(self.N):\n            r = r + self.eval_at_control(stage, expr, k)\n        return r\n\n    def fill_placeholders_sum_control_plus", "        r = 0\n        for k in range(1,self.N):\n            r = r + self.eval_at_control(stage, expr, k)\n        return r\n\n    def fill_placeholders_sum_control_plus", ['C05']),
+ ('dc-quad-weight', 'direct_collocation.py', 'self.q = self.q + res["quad"]*dt*self.B[j]', 'self.q = self.q + res["quad"]*dt*self.B[j-1]', ['C05']),
+ ('rk-quad-weights', 'sampling_method.py', 'DT / 6 * (k1["quad"] + 2 * k2["quad"] + 2 * k3["quad"] + k4["quad"])', 'DT / 6 * (k1["quad"] + 2 * k2["quad"] + 2 * k3["quad"] + k1["quad"])', ['C05']),
+ ('integral-control-weights', 'sampling_method.py', "return ca.sum2(ca.diff(ts).T*exprs[:,:-1])", "return ca.sum2(ca.diff(ts).T*exprs[:,1:])", ['C05']),
+ ('at-t0-node', 'sampling_method.py', "        return self.eval_at_control(stage, expr, 0)\n\n    def fill_placeholders_at_tf", "        return self.eval_at_control(stage, expr, 1)\n\n    def fill_placeholders_at_tf", ['C05', 'C04']),
+ ('ms-quad-accumulate', 'multiple_shooting.py', '            xqk_temp = self.q+FF["Qi"]', '            xqk_temp = FF["Qi"]', ['C07']),
 ]
 
 def main():
